@@ -97,7 +97,7 @@ def main():
             'evidence_file': 'evidence/%s.json' % pid,
             'replay_cmd_template': './check %s --replay {path}' % pid,
             'engine': 'cbmc-contracts',
-            'level_claimed': {'category': cat, 'text': text, 'design_ref': 'DESIGN.md section ' + ref},
+            'level_claimed': {'category': cat, 'text': text, 'design_ref': 'DESIGN.md Part I (I.4, I.5) and section ' + ref},
             'level_note': note,
             'technique': tech,
         })
